@@ -852,6 +852,70 @@ func checkPooledBytesEscape(c *Ctx, rule string) {
 		}
 	}
 	n, nbad := 0, 0
+	// a function that takes an object from a pool and gives it back hands out nothing that is cut from it: the
+	// scratch buffer of a "allocation free" helper belongs to the next taker the moment it is put back
+	for _, fn := range p.FuncsIn(redisPkg) {
+		if p.isTestFn(fn) {
+			continue
+		}
+		var gets []ssa.Value
+		var puts []*ssa.CallCommon
+		eachInstr(fn, func(_ *ssa.BasicBlock, _ int, in ssa.Instruction) {
+			cc := callOf(in)
+			if cc == nil {
+				return
+			}
+			if g := calleeFn(cc); g != nil {
+				switch g.String() {
+				case "(*sync.Pool).Get":
+					if v, ok := in.(ssa.Value); ok {
+						gets = append(gets, v)
+					}
+				case "(*sync.Pool).Put":
+					puts = append(puts, cc)
+				}
+			}
+		})
+		if len(gets) == 0 || len(puts) == 0 {
+			continue
+		}
+		fromGet := func(v ssa.Value) bool {
+			return derives(v, func(x ssa.Value) bool {
+				for _, g := range gets {
+					if x == g {
+						return true
+					}
+				}
+				return false
+			})
+		}
+		putsBack := false
+		for _, pc := range puts {
+			if len(pc.Args) == 2 && fromGet(pc.Args[1]) {
+				putsBack = true
+			}
+		}
+		if !putsBack {
+			continue
+		}
+		nr := 0
+		eachInstr(fn, func(_ *ssa.BasicBlock, _ int, in ssa.Instruction) {
+			ret, ok := in.(*ssa.Return)
+			if !ok {
+				return
+			}
+			for _, v := range returnedValues(ret) {
+				switch v.Type().Underlying().(type) {
+				case *types.Slice, *types.Pointer:
+				default:
+					continue
+				}
+				nr++
+				n++
+				c.Check(!fromGet(v), rule, fmt.Sprintf("%s result#%d is not cut from the pooled object it gives back", fnKey(fn), nr), ret.Pos(), "the result does not derive from the pooled object", "the function returns memory of an object it has already put back into the pool: the next taker - another goroutine - overwrites it while the caller still reads it (a command name folded in a pooled scratch buffer is looked up as the name another connection is folding: an unsupported command finds a handler, a write is classified read-only)")
+			}
+		})
+	}
 	for _, fn := range p.FuncsIn(redisPkg) {
 		if p.isTestFn(fn) || pooledCtor[fn] {
 			continue
